@@ -248,6 +248,61 @@ def check_flat(case, ctx):
             'accepted': [xl.show(sols['a1'][k]) + ' (same formula spelled in A1 notation)']})
 
 
+# -- functions do not write into their arguments ------------------------------------
+# The array a function receives is the value of the range node it was given: a
+# function that overwrites it changes that node after the fact, and the solved
+# range no longer equals its member cells (the fixed-point clause).
+
+PURITY_ARRAYS = [
+    [[1.0, 'a', True]], [[1.0], ['#N/A!'], [None]], [[1.0, 2.0], [3.0, None]],
+    [[None, None, 1.0]], [['b', 'a'], ['c', None]], [[True, False, None]],
+    [[3.0, 1.0, 2.0]], [[0.0], [None], ['']], [[2.0, 2.0], [2.0, 2.0]],
+]
+
+
+def check_purity(name, ctx, tb=None):
+    from . import c11
+    from ..ref import arity
+    tb = tb or c11.Table()
+    spec = arity.lookup(name)
+    if spec in (None, 'missing'):
+        return
+    import schedula as sh
+
+    def mk(rows):
+        a = np.empty((len(rows), len(rows[0])), object)
+        for i, row in enumerate(rows):
+            for j, x in enumerate(row):
+                a[i, j] = sh.EMPTY if x is None else (
+                    xl.err('#N/A') if x == '#N/A!' else x)
+        return a
+    f = tb.F[name]
+    pre = []
+    if isinstance(f, dict):
+        pre = [tb.extra[k] for k in f.get('extra_inputs', {})]
+        f = f['function']
+    for n in c11.counts_of(spec):
+        base = c11.benign_args(spec, n)
+        for pos in range(n):
+            for rows in PURITY_ARRAYS:
+                args = [c11.to_arg(a) for a in base]
+                args[pos] = mk(rows)
+                before = [xl.canon(a) if isinstance(a, np.ndarray) else None for a in args]
+                try:
+                    f(*pre, *args)
+                except Exception:
+                    ctx.count('purity.call-raised')      # totality is C11's clause
+                ctx.count('monitor.purity-calls')
+                for i, (a, b0) in enumerate(zip(args, before)):
+                    if b0 is not None and xl.canon(a) != b0:
+                        ctx.violation('argument-modified:%s' % c11._base(name), {
+                            'case': {'kind': 'purity', 'name': name},
+                            'call': '%s(...)' % name, 'position': i,
+                            'observed': xl.show(xl.canon(a)),
+                            'accepted': [xl.show(b0) + ' (the array as passed in)']})
+    ctx.case(('purity', name))
+
+
 def variants(i, with_xlsx):
     import random
     out = [('dict/identity', None), ('dict/reversed', lambda it: it[::-1])]
@@ -390,6 +445,8 @@ def plan(tier, seed):
             specs.append({'kind': 'descs', 'lo': lo, 'hi': min(nd, lo + per),
                           'hashseed': h, 'xlsx': h in (0, 1), 'timeout': 1500})
     specs.append({'kind': 'fixture', 'name': 'excel.xlsx', 'timeout': 900})
+    for part in range(4):
+        specs.append({'kind': 'purity', 'part': part, 'parts': 4, 'timeout': 900})
     nf = 300 if tier == 'quick' else 6000
     for lo in range(0, nf, 150):
         specs.append({'kind': 'flat', 'lo': lo, 'hi': lo + 150})
@@ -403,6 +460,8 @@ def check_case(case, ctx):
         check_fixture(case['name'], ctx)
     elif case['kind'] == 'flat':
         check_flat(case, ctx)
+    elif case['kind'] == 'purity':
+        check_purity(case['name'], ctx)
     else:
         check_desc(case['desc'], case.get('index', 0), ctx)
 
@@ -410,6 +469,16 @@ def check_case(case, ctx):
 def run(spec, ctx):
     if spec['kind'] == 'fixture':
         check_fixture(spec['name'], ctx)
+        return
+    if spec['kind'] == 'purity':
+        from . import c11
+        tb = c11.Table()
+        names = sorted(tb.F)
+        for name in names[spec['part']::spec['parts']]:
+            ctx.open_case({'kind': 'purity', 'name': name})
+            check_purity(name, ctx, tb)
+        ctx.sample({'functions checked for argument modification': len(
+            names[spec['part']::spec['parts']])})
         return
     if spec['kind'] == 'flat':
         for i in range(spec['lo'], spec['hi']):
